@@ -207,7 +207,10 @@ def build(rnd, tier, flags):
     r = gen.R(rnd)
     if r.chance(35):
         recipe = [r.pick(EXPR_WRAPS) for _ in range(r.n(1, 3))]
-        return {"family": "generated_expr", "recipe": recipe, "innermost": r.pick(["a", "arr(i)", "1.0e-3", "x%y"]),
+        inner = r.pick(["a", "arr(i)", "1.0e-3", "x%y"])
+        if inner == "1.0e-3" and recipe[0] in ("c(%s)%%d", "s(1)(%s:2)"):
+            inner = "k"        # a real literal as subscript / substring bound of a data-ref is rejected by design
+        return {"family": "generated_expr", "recipe": recipe, "innermost": inner,
                 "stmt": r.pick(["x = %s", "if (l) x = %s", "call sub(%s, 1)", "print *, %s", "x = arr(%s)"]),
                 "n": r.pick(sizes(tier)), "std": r.pick(["f2003", "f2008"])}
     if r.chance(20):
